@@ -2203,6 +2203,13 @@ func (self *Aof) GetLockCommandExpriedTime(lockDb *LockDB, aofLock *AofLock) uin
 		return aofLock.ExpriedTime
 	}
 	if aofLock.ExpriedFlag&protocol.EXPRIED_FLAG_MILLISECOND_TIME != 0 {
+		expriedTimeSeconds := lockDb.currentTime - int64(aofLock.CommandTime)
+		if expriedTimeSeconds >= 0 {
+			if int64(aofLock.ExpriedTime) > expriedTimeSeconds*1000 {
+				return aofLock.ExpriedTime - uint16(expriedTimeSeconds*1000)
+			}
+			return 0
+		}
 		return aofLock.ExpriedTime
 	}
 	if aofLock.ExpriedFlag&protocol.EXPRIED_FLAG_MINUTE_TIME != 0 {
@@ -2236,6 +2243,15 @@ func (self *Aof) GetAofLockExpriedTime(lockCommand *protocol.LockCommand, lock *
 		return lockCommand.Expried
 	}
 	if lockCommand.ExpriedFlag&protocol.EXPRIED_FLAG_MILLISECOND_TIME != 0 {
+		if lock.expriedTime > 0 {
+			expriedTimeSeconds := lock.expriedTime - int64(aofLock.CommandTime)
+			if expriedTimeSeconds <= 0 {
+				return 0
+			}
+			if expriedTimeSeconds*1000 < int64(lockCommand.Expried) {
+				return uint16(expriedTimeSeconds * 1000)
+			}
+		}
 		return lockCommand.Expried
 	}
 	if lockCommand.ExpriedFlag&protocol.EXPRIED_FLAG_MINUTE_TIME != 0 {
